@@ -36,8 +36,9 @@ def BOUND(tier):
 def cases(tier):
     for cmd in SIG.DATA_COMMANDS:
         fz = SIG.input_fuzz(cmd)
-        dts = ("float",) if fz == "fz" else ("float", "int")
+        dts0 = ("float",) if fz == "fz" else ("float", "int")
         for n in D.arities(cmd):
+            dts = dts0 + (("float32",) if n <= 2 else ())  # single-precision data (readers and plug-ins may deliver it)
             shapes = [(3,)] + ([(2, 2)] if (n <= 2 or tier == "thorough") else []) + ([(1, 3, 1)] if tier == "thorough" else [])
             for shape in shapes:
                 for dt in dts:
@@ -68,7 +69,7 @@ def run(case):
     outcomes = {}
     evals = nontriv = 0
     sample = None
-    payloads = INT_PAYLOADS if dt == "int" else PAYLOADS
+    payloads = INT_PAYLOADS if dt == "int" else (PAYLOADS if dt == "float" else [0, 1, -9999, 1e30])
     for lo in range(1 << lowbits):
         bits = lo | ((hi << 8) if hi >= 0 else 0)
         cols = [[None if bits >> (i * size + j) & 1 else vals[i][j] for j in range(size)] for i in range(n)]
